@@ -491,6 +491,18 @@ let handle (line : string) : string =
                       apply_send (Register h);
                       if reg then begin sending := Some (h, c, i, g, 0, false); incr wired_frames; finish () end else begin sending := None; errs := g :: !errs end
                     done
+          | "RS" -> (* request h sent completely; future k dropped by the assignment, unseen *)
+                    finish (); let h = next_n t in let k = next_int t in
+                    let c = curc () in
+                    let i = int_of_nat (cst c).nw in let reg = not (cst c).closed in
+                    let g = !nsends in
+                    sends := (g, (c, i)) :: !sends; incr nsends;
+                    apply_send (Register h);
+                    if reg then begin sending := Some (h, c, i, g, 0, false); incr wired_frames; finish () end else begin sending := None; errs := g :: !errs end;
+                    if k < g && not (List.mem_assoc k !labels) && not (List.mem k !errs) then begin
+                      let (c', i') = List.assoc k !sends in
+                      labels := (k, "DROPPED") :: !labels;
+                      ms := mstep !ms (MPeer (nat_of_int c', Abandon (nat_of_int i'))); drain c' end
           | "RX" -> (* a request that cannot be encoded: registered (if the table is open), then send_message returns Err *)
                     finish (); let h = next_n t in
                     let c = curc () in
